@@ -35,11 +35,15 @@ var positions = []position{
 	{name: "nested-dict", class: "singular", family: "f", ctor: true, nested: true, body: "return {F}.All(f_rec = {\"f_{K}\": v})"},
 	{name: "nested-attr", class: "singular", family: "f", nested: true, direct: "direct-attr", body: "m.f_rec = {\"f_{K}\": v}"},
 	{name: "list-whole", class: "repeated", family: "r", direct: "direct-list-assign", body: "m.r_{K} = v"},
+	{name: "list-whole-kwarg", class: "repeated", family: "r", ctor: true, body: "return {F}.All(r_{K} = v)"},
+	{name: "list-whole-set_field", class: "repeated", family: "r", direct: "direct-set_field", body: "proto.set_field(m, {F}.All.r_{K}, v)"},
 	{name: "list-assign", class: "repeated", family: "r", direct: "direct-list-assign", body: "m.r_{K} = [v0, v]"},
 	{name: "list-kwarg", class: "repeated", family: "r", ctor: true, body: "return {F}.All(r_{K} = [v0, v])"},
 	{name: "setindex", class: "repeated", family: "r", direct: "direct-setindex", body: "m.r_{K}[0] = v"},
 	{name: "append", class: "repeated", family: "r", direct: "direct-append", body: "m.r_{K}.append(v)"},
 	{name: "map-whole", class: "map-value", family: "mv", direct: "direct-map-assign", body: "m.mv_{K} = v"},
+	{name: "map-whole-kwarg", class: "map-value", family: "mv", ctor: true, body: "return {F}.All(mv_{K} = v)"},
+	{name: "map-whole-set_field", class: "map-value", family: "mv", direct: "direct-set_field", body: "proto.set_field(m, {F}.All.mv_{K}, v)"},
 	{name: "map-value-setkey", class: "map-value", family: "mv", direct: "direct-setkey", body: "m.mv_{K}[\"b\"] = v"},
 	{name: "map-value-assign", class: "map-value", family: "mv", direct: "direct-map-assign", body: "m.mv_{K} = {\"b\": v}"},
 	{name: "map-value-kwarg", class: "map-value", family: "mv", ctor: true, body: "return {F}.All(mv_{K} = {\"b\": v})"},
@@ -228,7 +232,8 @@ func (e *env) matrixCell(fs *fileSchema, kind string, pos *position, goRoute boo
 	var wantPV protoreflect.Value // value expected at the written slot (invalid if none)
 	var keyPV protoreflect.Value
 	switch pos.name {
-	case "attr", "kwarg", "dictarg", "set_field", "list-whole", "list-assign", "list-kwarg", "map-whole", "map-value-assign", "map-value-kwarg", "map-key-assign":
+	case "attr", "kwarg", "dictarg", "set_field", "list-whole", "list-assign", "list-kwarg", "map-whole", "map-value-assign", "map-value-kwarg", "map-key-assign",
+		"list-whole-kwarg", "list-whole-set_field", "map-whole-kwarg", "map-whole-set_field":
 		verdict = e.refSetField(exp, fd, opArg)
 	case "nested-dict", "nested-attr":
 		verdict = e.refSetField(exp, fs.field("f_rec"), opArg)
@@ -273,7 +278,7 @@ func (e *env) matrixCell(fs *fileSchema, kind string, pos *position, goRoute boo
 				wantPV = holder.Get(fd)
 			}
 		case "r":
-			if pos.name != "list-whole" && exp.Has(fd) {
+			if !strings.HasPrefix(pos.name, "list-whole") && exp.Has(fd) {
 				l := exp.Get(fd).List()
 				idx := l.Len() - 1
 				if pos.name == "setindex" {
@@ -282,7 +287,7 @@ func (e *env) matrixCell(fs *fileSchema, kind string, pos *position, goRoute boo
 				wantPV = l.Get(idx)
 			}
 		case "mv":
-			if pos.name != "map-whole" && exp.Has(fd) {
+			if !strings.HasPrefix(pos.name, "map-whole") && exp.Has(fd) {
 				wantPV = exp.Get(fd).Map().Get(protoreflect.ValueOfString("b").MapKey())
 			}
 		case "mk":
@@ -313,13 +318,13 @@ func (e *env) matrixCell(fs *fileSchema, kind string, pos *position, goRoute boo
 				r.err = m.SetField(fname, opArg)
 			case "nested-attr":
 				r.err = m.SetField("f_rec", opArg)
-			case "kwarg", "list-kwarg", "map-value-kwarg":
+			case "kwarg", "list-kwarg", "map-value-kwarg", "list-whole-kwarg", "map-whole-kwarg":
 				r.res, r.err = starlark.Call(th, allDesc, nil, []starlark.Tuple{{starlark.String(fname), opArg}})
 			case "nested-dict":
 				r.res, r.err = starlark.Call(th, allDesc, nil, []starlark.Tuple{{starlark.String("f_rec"), opArg}})
 			case "dictarg":
 				r.res, r.err = starlark.Call(th, allDesc, starlark.Tuple{mkDict(starlark.String(fname), v)}, nil)
-			case "set_field":
+			case "set_field", "list-whole-set_field", "map-whole-set_field":
 				_, r.err = starlark.Call(th, sproto.Module.Members["set_field"], starlark.Tuple{m, sproto.FieldDescriptor{Desc: fd}, v}, nil)
 			case "setindex":
 				r.err = view().(starlark.HasSetIndex).SetIndex(0, v)
@@ -470,14 +475,14 @@ func (e *env) matrixCell(fs *fileSchema, kind string, pos *position, goRoute boo
 			switch pos.name {
 			case "nested-attr":
 				arg1 = mkDict(starlark.String("f_"+kind), v1)
-			case "list-whole", "list-assign":
+			case "list-whole", "list-assign", "list-whole-set_field":
 				arg1 = mkList(v0, v1, v1)
-			case "map-whole", "map-value-assign":
+			case "map-whole", "map-value-assign", "map-whole-set_field":
 				arg1 = mkDict(starlark.String("c"), v1)
 			case "map-key-assign":
 				arg1 = mkDict(v1, starlark.MakeInt(3))
 			}
-			if pos.name == "list-whole" || pos.name == "map-whole" {
+			if strings.HasPrefix(pos.name, "list-whole") || strings.HasPrefix(pos.name, "map-whole") {
 				v1 = arg1
 			}
 			var stale starlark.Value
